@@ -210,10 +210,19 @@ def check_small(case, ctx):
                 raise Violation("decoder scheme: get_kemeny_score(%s) = %r, definition gives %s" % (w, got, want))
 
 
+@st.composite
+def large_cases(draw, tier):
+    ds = draw(gen.large_datasets())
+    univ = oracle.universe(ds["rankings"])
+    return {"scheme": draw(gen.any_schemes()), "dataset": ds, "cand": draw(gen.candidates(univ)), "superset": False,
+            "batched": True}
+
+
 def subchecks():
     return [
         HypSub("score_random", score_cases, check_score, quick=12000, thorough=200000),
         HypSub("score_refusal", refusal_cases, check_refusal, quick=1500, thorough=30000),
         HypSub("consensus_lazy", lazy_cases, check_lazy, quick=1500, thorough=30000),
+        HypSub("score_large", large_cases, check_score, quick=400, thorough=5000),
         EnumSub("small_scope", small_datasets, check_small),
     ]
